@@ -121,7 +121,11 @@ pub fn build_graph<IntT: for<'a> UInt<'a>>(
             }
         });
 
-    let all_kmers: KmerGraph<IntT> = all_kmers.into_iter().collect();
+    let mut all_kmers: KmerGraph<IntT> = all_kmers.into_iter().collect();
+    // edges were pushed by several threads: fix their order so results do not depend on timing
+    for next_kmers in all_kmers.values_mut() {
+        next_kmers.sort_unstable();
+    }
     let kmer_samples: KmerSamples<IntT> = kmer_samples.into_iter().collect();
 
     log::info!("{} nodes", all_kmers.len());
